@@ -316,7 +316,7 @@ func runE2E(rie, self string, c e2eCase, withAgent bool) (*e2eResult, error) {
 	}()
 	rtDir := filepath.Join(tmp, "c16dump")
 	agDir := filepath.Join(opt, "c16dump")
-	deadline := time.Now().Add(5 * time.Second)
+	deadline := time.Now().Add(20 * time.Second)
 	for res.invokeState == "" && time.Now().Before(deadline) {
 		select {
 		case res.invokeState = <-invoked:
